@@ -62,6 +62,11 @@ CHECKS = {
         technique="runtime history-invariant monitor: the same definition multiset loaded by the real loader in many orders and file splits; canonical registry dumps compared byte for byte",
         text="Entry-level permutations of the parsed bundled file (identity, reversal, dependency-reversed, rotations, seeded shuffles), text-level pieces parsed as separate files in shuffled order, and generated databases with deep/wide/diamond dependency graphs shuffled and split into 1..3 files must all load without error into byte-identical databases (prefix order included).",
         note="Only uniquely named definitions are permuted (duplicates keep relative order, last-wins by design); explores sampled permutations, not all n!."),
+    "C14": dict(
+        category="exploration", design_ref="DESIGN.md §2 C14",
+        technique="runtime reference-model monitor: literals rendered from chosen instants per documented pattern; instants recovered from replies and compared with an independent proleptic-Gregorian integer-nanosecond calendar",
+        text="Instants over years 0001-9999 rendered into every documented literal form (with optional seconds, 1-9 fractional digits, fixed offsets) x whole-nanosecond durations from 1 ns to ~9500 years written in 16 time units with both signs: the literal's instant, (d+t)-d = t, (d-t)+t = d, d1-d2, fixed-offset and named-zone conversions keeping the instant, and refusal of offsets of 24 h or more.",
+        note="Clock pinned; named zones only as conversion targets and only for instants from 1972 on; ISO-week and year-less patterns are not generated; the sandbox's local zone is UTC."),
 }
 
 PENDING = {}
